@@ -125,7 +125,16 @@ def run_shard(args):
     try:
         return _run_shard(prop, idx, tier, seed, t_end)
     except BaseException as exc:  # harness failure inside a worker
-        return {"shard": idx, "error": "".join(traceback.format_exception(exc))[-4000:]}
+        text = "".join(traceback.format_exception(exc))
+        if isinstance(exc, MemoryError) or "MemoryError" in text[-600:]:
+            # the address-space limit was hit outside a case's own handlers: a runaway allocation by the library left
+            # no room for the harness (which needs a few hundred MB); reported like a worker that died
+            import gc
+
+            del exc
+            gc.collect()
+            return {"shard": idx, "died": "MemoryError"}
+        return {"shard": idx, "error": text[-4000:]}
 
 
 def _run_shard(prop, idx, tier, seed, t_end):
